@@ -2,19 +2,36 @@
 from common_props import COMMON_TRUSTED
 
 CFG = {
-    "engines": [["fragck", 250, 3000], ["relayappend", 40, 500]],
+    "engines": [["fragck", 250, 3000], ["relayappend", 40, 500], ["ckown", 18, 150]],
     "rule": "fragck/crc: random and boundary byte strings, split at arbitrary points, both polynomials, arbitrary initial values, "
             "against hash/crc32; fragck-writer: every fragment of writer scripts as in C01 against an independently computed "
             "running CRC; fragck-corrupt: for messages from the real writer, one byte of one fragment altered (argument byte or "
             "checksum byte; bit flips, 0x00, 0xff, +1) or the checksum type changed mid-message, read back by the real reader with "
             "all read patterns: the read must fail no later than the end of that fragment and never complete; relayappend: real "
             "relay with a host that appends key/value pairs to arg2, frames re-emitted to the destination checked against an "
-            "independent CRC. All cases non-trivial; distinct by input.",
+            "independent CRC. ckown (also for every relayappend case): the library runs on tracking checksum pools "
+            "(harness/overlay/zz_verif_c02.go); the recorded trace of Acquire/Add/Sum/Release operations, each with the library "
+            "function performing it, must satisfy the ownership discipline ck_run of Model/CkOwn.v (judged in Go and by the extracted "
+            "Coq checker: the correspondence line) -- no use after release, no second release, no operation by a function outside "
+            "the object's life cycle; directed scenarios: a non-final re-emitted frame of an arg2-appending relay refused by a slow "
+            "destination (relay-dest-conn-slow) while a second message of the same checksum type is being written (every frame reaching "
+            "a destination is checked against an independent CRC), and a continuation frame held between the relay's item lookup and "
+            "its checksum update while the call is finished by the destination's response / by its timer (forced schedule). "
+            "All cases non-trivial; distinct by input.",
     "trusted_base": COMMON_TRUSTED + [
         "modelled by hand (tied by correspondence): checksum objects (New/Add/Sum/Reset, null and hash kinds), running checksum in "
         "writer and reader; hash/crc32 re-modelled from its definition (bitwise, table-free) and compared with the library on every run",
+        "regenerated from source each run: Gen/GenCkSites.ck_sites, every New/Release/Add/Sum/Reset/pool Get/Put/noReleaseChecksum wrap/"
+        "field store/argument hand-over of a pooled checksum with enclosing function, receiver and guard (go2v/cksites.go); the life cycles "
+        "of Model/CkOwn.v (writer, reader, relay item) are modelled by hand and tied by that table and by the recorded traces",
     ],
-    "assumptions": ["detection is claimed for an alteration confined to one byte (two coordinated alterations can collide in any 32-bit CRC)",
+    "spec_subs": {"ckown": ["theories/Proofs/CkOwnP.vo"]},
+    "assumptions": ["ownership discipline of the relay item's checksum on the pinned tree: proved under 'finishRelayItem does not run while a frame "
+                    "of the call is between the item lookup and the end of its checksum update'; without it the model refutes it "
+                    "(C02_ck_discipline_refuted_by_overlap, known finding c02:relay-checksum-released-under-inflight-frame); unconditional on a "
+                    "tree without the Release in finishRelayItem",
+                    "ArgWriter.Flush after the Close of the last argument (API misuse) is outside the life-cycle model",
+                    "detection is claimed for an alteration confined to one byte (two coordinated alterations can collide in any 32-bit CRC)",
                     "bytes of chunk-length fields and flags are covered by correspondence (fragparse) only",
                     "Farmhash (type 2) is unimplemented in the code (null checksum with a 4-byte field): every such message is rejected; no detection claimed"],
 }
